@@ -278,7 +278,7 @@ def png_filters_rule(model: Model, rep: Report, rid: str) -> None:
 
 
 def _png_filters(model: Model, rep: Report, png: FuncInfo, rid: str = "C03-R5") -> None:
-    r5 = rep.rule(rid, "NORMFORM", "Paeth function equals PNG 6.6; each filter type reads the spec'd operands and reduces mod 256", 7)
+    r5 = rep.rule(rid, "NORMFORM", "Paeth function equals PNG 6.6; each filter type reads the spec'd operands and reduces mod 256", 8)
     pa = model.func(U + "paeth_predictor")
     se = SymEval(opaque_ok=True)
     se.calls = {"abs": lambda x: ("abs", x) if not (isinstance(x, Poly) and x.is_const()) else Poly.const(abs(x.const_value()))}
@@ -324,6 +324,8 @@ def _png_filters(model: Model, rep: Report, png: FuncInfo, rid: str = "C03-R5") 
     r5.check("prior_x=int(line_above[j])" in s3 and "raw_x=average_x+(raw_x_bpp+prior_x)//2&255" in s3 and "raw_x_bpp=int(raw[j-bpp])" in s3, site(png), png.qualname, "Average: Raw(x) = Avg(x) + floor((Raw(x-bpp) + Prior(x)) / 2) mod 256", why=s3[:200])
     s4 = body_src(4)
     r5.check("paeth=paeth_predictor(raw_x_bpp,prior_x,prior_x_bpp)" in s4 and "raw_x_bpp=int(raw[j-bpp])" in s4 and "prior_x_bpp=int(line_above[j-bpp])" in s4 and "prior_x=int(line_above[j])" in s4 and "raw_x=paeth_x+paeth&255" in s4, site(png), png.qualname, "Paeth: predictor(left = Raw(x-bpp), above = Prior(x), upper-left = Prior(x-bpp))", why=s4[:240])
+    pred_reads = [n for n in walk_no_nested(png.node) if isinstance(n, ast.Name) and isinstance(n.ctx, ast.Load) and n.id == png.params[0]]
+    r5.check(not pred_reads, site(png, pred_reads[0]) if pred_reads else site(png), png.qualname, f"the declared /Predictor value (`{png.params[0]}`) does not take part in decoding: each row's filter is the row's own tag byte", why=f"`{png.params[0]}` is read: PNG predictors 10-15 all mean `the filter is chosen row by row` (Table 10), so a row whose tag differs from the declared value would be decoded with the wrong filter")
     src = unparse(png.node).replace(" ", "")
     r5.check("line_above=raw" in src and "range(0,len(data),nbytes+1)" in src and "filter_type=data[scanline_i]" in src and "line_encoded=data[scanline_i+1:scanline_i+1+nbytes]" in src, site(png), png.qualname, "rows are 1 + nbytes long: type byte, then data; each decoded row becomes the next prior row", why="row framing changed")
 
